@@ -22,10 +22,10 @@ BASE_API = container.BASE_API
 
 # (family, cfg file, keep every k-th configuration in the quick tier)
 FAMILIES = {
-    "quick": [("lits", "MC_Container.tla", "MC_Container_lits.cfg", 1), ("build", "MC_Container.tla", "MC_Container_build.cfg", 1),
-              ("apiq", "MC_Container.tla", "MC_Container_apiq.cfg", 1), ("tagsq", "MC_Container.tla", "MC_Container_tagsq.cfg", 7),
+    "quick": [("lits", "MC_Container.tla", "MC_Container_lits.cfg", 1), ("forms", "MC_Container.tla", "MC_Container_forms.cfg", 1), ("build", "MC_Container.tla", "MC_Container_build.cfg", 1),
+              ("apiq", "MC_Container.tla", "MC_Container_apiq.cfg", 1), ("tagsq", "MC_Container.tla", "MC_Container_tagsq.cfg", 11),
               ("todo", "MC_Container.tla", "MC_Container_todo.cfg", 1)],
-    "thorough": [("lits", "MC_Container.tla", "MC_Container_lits.cfg", 1), ("build", "MC_Container.tla", "MC_Container_build.cfg", 1),
+    "thorough": [("lits", "MC_Container.tla", "MC_Container_lits.cfg", 1), ("forms", "MC_Container.tla", "MC_Container_forms.cfg", 1), ("build", "MC_Container.tla", "MC_Container_build.cfg", 1),
                  ("api", "MC_Container.tla", "MC_Container_api.cfg", 1), ("tags", "MC_Container.tla", "MC_Container_tags.cfg", 3),
                  ("todo", "MC_Container.tla", "MC_Container_todo.cfg", 1)],
 }
@@ -88,6 +88,9 @@ def generate_both(entries, rng, wd):
                 f.write(y)
             ins += ["-i", "in%d.yaml" % k]
         for mode in ("normal", "stub"):
+            # the -o path already holds a longer file: what is written must be the complete new content
+            with open(os.path.join(d, mode + ".go"), "w") as f:
+                f.write("// previous content\n" + "// filler filler filler filler\n" * 6000)
             jobs.append({"id": len(jobs), "dir": d, "args": ins + ["-o", mode + ".go"] + (["--stub"] if mode == "stub" else []),
                          "version": "dev-main", "buildinfo": "verif", "out": mode + ".go", "want_out": True})
     try:
@@ -244,7 +247,7 @@ def run(pid, tier):
                 continue
             n_checked += 1
     shutil.rmtree(wd, ignore_errors=True)
-    if n_acc < 20 or n_checked < 0.5 * len(ok_entries):
+    if not v.violations and (n_acc < 20 or n_checked < 0.5 * len(ok_entries)):
         raise core.InfraError("degenerate exploration: accepted=%d checked=%d of %d" % (n_acc, n_checked, len(ok_entries)))
     rc = v.finish(tier, t0)
     sample = ok_entries[len(ok_entries) // 2]
